@@ -83,7 +83,8 @@ def run(ctx, rep):
         except (FileError, struct.error) as e:
             rep.fail('C15.R7', key0 + ':format', v.name, 'the tables file flex wrote does not follow the documented format: %s' % e, variant=v.describe()); continue
         mod = variants.module(v)
-        want = 'yytables'
+        pre = [o.split('=')[1].strip('"') for o in v.options if o.startswith('prefix=')]
+        want = (pre[0] if pre else 'yy') + 'tables'
         mine = [s_ for s_ in sets if s_[0] == want]
         if len(mine) != 1:
             rep.fail('C15.R7', key0 + ':set-name', v.name, 'the file holds sets %s, expected exactly one named %r' % ([s_[0] for s_ in sets], want), variant=v.describe()); continue
